@@ -674,3 +674,65 @@ def rule_lookahead(model):
 
 
 RULES = RULES + [_inl(rule_lookahead)]
+
+
+def rule_step_size(model):
+    r = RuleResult('C12.R4', 'the batch size the window computation hands '
+                   'back (the caller uses it for the look-ahead batch) is '
+                   'the requested size: it is re-assigned only where no '
+                   'usable size was given (size < 1)')
+    fi = model.func('DT_InSV', 'opt')
+    ps = fi.params()
+    if len(ps) < 3:
+        raise AnalysisError('opt: signature changed')
+    size = ps[2]
+    # the returned third component must be the size parameter
+    nret = 0
+    for x in own_nodes(fi.node):
+        if isinstance(x, ast.Return) and isinstance(x.value, ast.Tuple) \
+                and len(x.value.elts) == 3:
+            nret += 1
+            e = x.value.elts[2]
+            ok = isinstance(e, ast.Name) and e.id == size
+            r.instance(fi.where, x, 'returns the size parameter' if ok
+                       else 'RETURNS ANOTHER SIZE')
+            if not ok:
+                r.finding(fi.where, x, 'the window computation returns '
+                          f'`{norm(e)}` as batch size instead of the size '
+                          'it was given: the look-ahead batch pulled from '
+                          'a lazy sequence is no longer size + orphan',
+                          node=x, ctx=fi)
+    if nret < 1:
+        raise AnalysisError('opt: no (start, end, size) return found')
+    for x in own_nodes(fi.node):
+        tg = []
+        if isinstance(x, ast.Assign):
+            tg = x.targets
+        elif isinstance(x, (ast.AugAssign, ast.AnnAssign)):
+            tg = [x.target]
+        if not any(isinstance(y, ast.Name) and y.id == size
+                   for t in tg for y in ast.walk(t)):
+            continue
+        guarded = False
+        node = x
+        for anc in ancestors(x):
+            if isinstance(anc, ast.If) and node in anc.body and \
+                    norm(anc.test) in (f'{size} < 1', f'{size} <= 0',
+                                       f'not {size}', f'{size} is None',
+                                       f'1 > {size}', f'0 >= {size}'):
+                guarded = True
+            if isinstance(anc, (ast.FunctionDef, ast.Lambda)):
+                break
+            node = anc
+        r.instance(fi.where, x, 'default for a missing size' if guarded
+                   else 'SIZE CHANGED')
+        if not guarded:
+            r.finding(fi.where, x, 'the batch size is re-assigned although '
+                      'a size was given: the caller computes the look-ahead '
+                      'batch with the returned size, so more than '
+                      'size + orphan further elements of a lazy sequence '
+                      'are pulled', node=x, ctx=fi)
+    return r
+
+
+RULES = RULES + [_inl(rule_step_size)]
